@@ -6,6 +6,7 @@ import Yabgp.Driver.Spec
 import Yabgp.Driver.RibOps
 import Yabgp.Driver.MsgLogOps
 import Yabgp.Driver.MpOps
+import Yabgp.Driver.RestOps
 
 namespace Yabgp.Glue
 open Lean (Json)
@@ -15,12 +16,16 @@ structure DState where
   sess : Option World := none
   rib : Yabgp.RibGlue.RibDState := {}
   msglog : MsgLogOps.MsgLogState := {}
+  rest : Yabgp.RestGlue.RestState := {}
 
 def dispatch (st : DState) (j : Json) : Except String (DState × Json) := do
   let op ← getStr j "op"
   if Yabgp.RibGlue.isRibOp op then
     let (r, out) ← Yabgp.RibGlue.dispatchRib st.rib j
     return ({ st with rib := r }, out)
+  if op.startsWith "rest." then
+    let r ← Yabgp.RestGlue.dispatchRest st.rest j
+    return ({ st with rest := r.1 }, r.2)
   if op.startsWith "mp." then
     let (_, r) ← Yabgp.MpGlue.dispatchMp {} j
     return (st, r)
